@@ -52,6 +52,9 @@ func init() {
 			{ID: "R18p", Floor: 1, Doc: "car extract reads what car create wrote: no command lowers the section-size limit for itself (= R19i)", Run: ruleR19i},
 			{ID: "R18q", Floor: 1, Doc: "car extract from a pipe fails when the stream is damaged: the stdin loader ends cleanly only at io.EOF (= R02l)", Run: ruleR02l},
 			{ID: "R18r", Floor: 2, Doc: "an empty file is a section exactly as long as its CID: the lookups car extract relies on accept it (= R01r)", Run: ruleR01r},
+			{ID: "R18s", Floor: 1, Doc: "the extractor takes entry names as they are: no case folding (ToLower/ToUpper/EqualFold) in cmd/car/lib", Run: ruleR18s},
+			{ID: "R18t", Floor: 1, Doc: "car create opens its destination with the version option only: no parser option (ZeroLengthSectionAsEOF, limits) is set for a file the command writes and may resume", Run: ruleR18t},
+			{ID: "R18u", Floor: 1, Doc: "an empty block is a block that was found: wherever a store compares the size store.FindCid reports with a constant, 0 is on the found side (-1 is the only not-found marker)", Run: ruleR18u},
 		},
 	})
 }
